@@ -3,6 +3,7 @@ CONSTANTS
   Timeout = 20
   Period = 10
   PollInt = 30
+  Resume = 5
 CONSTRAINT Track
 INVARIANT Done
 POSTCONDITION Verdicts
